@@ -62,6 +62,9 @@ type Target interface {
 }
 
 func New(ctx context.Context, name string, cfg *config.SBI, schemaClient schemaClient.SchemaClientBound, opts ...grpc.DialOption) (Target, error) {
+	if t, ok, err := verifTarget(ctx, name, cfg, schemaClient); ok {
+		return t, err
+	}
 	switch cfg.Type {
 	case targetTypeGNMI:
 		return newGNMITarget(ctx, name, cfg, opts...)
